@@ -119,6 +119,17 @@ func (vc *VC) staticCall(call ssa.CallInstruction, callee *ssa.Function, binding
 				vc.evalPos = call.Pos()
 				ce := vc.envAt(vc.blk, vc.cur, nil)
 				vc.evalPos = token.NoPos
+				if h := vc.innermostLoop(vc.blk.Index); h >= 0 {
+					for _, hb := range vc.fn.Blocks {
+						if hb.Index == h {
+							hce := vc.envAt(hb, vc.cur, nil)
+							if rx, ok := hce.vars["range_x"]; ok {
+								ce.vars["range_x"] = rx
+							}
+							vc.iterationNames(hb, ce)
+						}
+					}
+				}
 				for i, p := range callee.Params {
 					if i < len(args) {
 						ce.vars[p.Name()] = cval{t: args[i], typ: argTypes[i], src: vc.fromField[c.Args[i]]}
